@@ -33,6 +33,7 @@ func (b *Blk) Number() uint64 { return b.Block.Number }
 
 // Opts steers the generator.
 type Opts struct {
+	Net         *networks.Network // network configuration (nil: Sepolia)
 	Versions    []string // protocol versions a chain may use, ascending; nil = all verified formats
 	MaxTxs      int      // max transactions per block (default 4)
 	NoNoopZero  bool     // never write zero to a slot that is already zero
@@ -103,6 +104,9 @@ func NewGen(rng *rand.Rand, opt Opts) *Gen {
 		opt.Slots = defaultSlots
 	}
 	g := &Gen{Rng: rng, Net: &networks.Sepolia, Opt: opt, seq: uint64(rng.Uint32()) << 20}
+	if opt.Net != nil {
+		g.Net = opt.Net
+	}
 	g.verIx = rng.IntN(len(opt.Versions))
 	return g
 }
